@@ -6,7 +6,7 @@
 //     C <code point> | S <k> <lo hi>*k | N <k> <lo hi>*k | A | M | J <t> | X <t1> <t2> | E
 //   T <n strings>                          then n strings, each: <len> <code point>*len
 // Output: one line per program: "<case id> <verdicts>" where verdicts is a string over {0,1} ("-" if no strings), or
-//   "<case id> HANG <index of the string>", "<case id> THROW <what>", "<case id> CRASH <signal>".
+//   "<case id> HANG <index of the string>", "<case id> THROW <what>", "<case id> CRASH <signal>", "<case id> SKIP".
 // Every program runs in forked children with CPU-time budgets, so that a non-terminating Match is an
 // observation and not a hang of the check; a hang is reported only after the single string has been given the
 // long budget as well.
@@ -42,13 +42,16 @@ static std::vector<revm::Range> ReadRanges(std::istream& in) {
 }
 
 int main(int argc, char** argv) {
-  if (argc < 4) {
-    std::cerr << "usage: driver <input> <cpu ms per program> <cpu ms for one string when confirming a hang>" << std::endl;
+  if (argc < 5) {
+    std::cerr << "usage: driver <input> <cpu ms per program> <cpu ms for one string when confirming a hang> "
+              << "<max confirmed hangs>" << std::endl;
     return 2;
   }
   std::ifstream in(argv[1]);
   const long cpu_ms = std::atol(argv[2]);
   const long long_cpu_ms = std::atol(argv[3]);
+  const long max_hangs = std::atol(argv[4]);  // confirming a hang burns the long budget: after that many, suspects are skipped
+  long hangs = 0;
   std::string tag;
   while (in >> tag) {
     if (tag != "P") {
@@ -195,6 +198,9 @@ int main(int argc, char** argv) {
           failure = "CRASH " + std::to_string(sig);
         } else if (confirming) {
           failure = "HANG " + std::to_string(start);
+          ++hangs;
+        } else if (hangs >= max_hangs) {
+          failure = "SKIP";  // neither a verdict nor a hang: this program is not judged
         } else {
           confirming = true;  // run string number `start` alone with the long budget
         }
